@@ -1,0 +1,103 @@
+//go:build verif
+
+// Contracts for package execution (compiled only with -tags=verif; checked by /verif/bin/govc).
+// Properties C02, C05, C13, C14 (and the ordering part of C07, the worker part of C03).
+package execution
+
+// runTargetCommand is the leaf that starts a shell. Its effect on the ghost command log is a definition (ghostset);
+// its effect on real state (log files, the process) is outside the modelled heap, hence `trusted` + `pure`.
+//@ func runTargetCommand(ctx, target, binToolPaths, outputIdentifiers, command, streamLogs) (out, err)
+//@   trusted
+//@   requires [in_worker] inWorker || soloPhase
+//@   pure
+//@   ghostset cmdLogCmd := store(cmdLogCmd, cmdLogN, command)
+//@   ghostset cmdLogOK := store(cmdLogOK, cmdLogN, err == nil)
+//@   ghostset cmdLogOut := store(cmdLogOut, cmdLogN, stringOf(arr(out), len(out)))
+//@   ghostset cmdLogDeadline := store(cmdLogDeadline, cmdLogN, hasDeadline(ctx))
+//@   ghostset cmdLogN := cmdLogN + 1
+
+// C14/C05: "exited 0 within its timeout"
+//@ func executeTarget(ctx, target, binToolPaths, outputIdentifiers, streamLogs) (err)
+//@   requires [in_worker] inWorker || soloPhase
+//@   pure
+//@   ensures [ran_main_command] cmdLogN == old(cmdLogN) + 1 && cmdLogCmd[old(cmdLogN)] == target.Command
+//@   ensures [error_mapping] err == nil ==> cmdLogOK[old(cmdLogN)]
+//@   ensures [deadline_set] target.Timeout > 0 ==> cmdLogDeadline[old(cmdLogN)]
+//@   ghostset target.mainRan := true
+//@   ghostset target.mainOK := err == nil
+//@   ghostset target.checksOK := false
+
+// C14: "every output check passes": every check ran, exited 0 and (if an expected output is given) matched after trimming.
+//@ func runOutputChecks(ctx, target, binToolPaths, outputIdentifiers) (err)
+//@   requires [in_worker] inWorker || soloPhase
+//@   pure
+//@   ensures [nil_iff_all_pass] err == nil ==> cmdLogN == old(cmdLogN) + len(target.OutputChecks) &&
+//@        (forall i int :: 0 <= i && i < len(target.OutputChecks) ==>
+//@            cmdLogCmd[old(cmdLogN) + i] == target.OutputChecks[i].Command && cmdLogOK[old(cmdLogN) + i] &&
+//@            (target.OutputChecks[i].ExpectedOutput != "" ==> trimSpace(target.OutputChecks[i].ExpectedOutput) == trimSpace(cmdLogOut[old(cmdLogN) + i])))
+//@   ghostset target.checksOK := err == nil
+//@ loop #1
+//@   invariant [all_so_far_pass] cmdLogN == old(cmdLogN) + rangeindex + 1 &&
+//@        (forall i int :: 0 <= i && i <= rangeindex ==>
+//@            cmdLogCmd[old(cmdLogN) + i] == target.OutputChecks[i].Command && cmdLogOK[old(cmdLogN) + i] &&
+//@            (target.OutputChecks[i].ExpectedOutput != "" ==> trimSpace(target.OutputChecks[i].ExpectedOutput) == trimSpace(cmdLogOut[old(cmdLogN) + i])))
+
+//@ func formatTargetResultForDebug(targetResult) (s)
+//@   trusted
+//@   pure
+
+//@ func markBinOutputExecutable(target) (err)
+//@   pure
+
+// C14/C05/C13: success path of one execution.
+//@ func (*Executor).executeTarget(e, ctx, target, binToolPaths, outputIdentifiers, update, isTainted) (r, err)
+//@   requires [in_worker] inWorker || soloPhase
+//@   ensures [success_requires] err == nil ==> (target.Command == "" || (target.mainRan && target.mainOK)) && target.checksOK && target.resultWritten
+//@   ensures [never_cached_on_failure] target.resultWritten && !old(target.resultWritten) ==> (target.Command == "" || (target.mainRan && target.mainOK)) && target.checksOK
+//@   ensures [taint_consumed] err == nil && isTainted ==> target.clearIssued
+//@   ensures [clear_only_if_tainted_success] target.clearIssued && !old(target.clearIssued) ==> isTainted && err == nil
+//@   ensures [ran_iff_command] target.Command != "" ==> target.mainRan
+//@   ensures [reports_miss] r == dag.CacheMiss
+
+// the asynchronous taint removal: issued only after a successful execution (C13: "the taint is consumed by that successful execution")
+//@ func (*Executor).executeTarget$1() ()
+//@   requires [clears_only_after_success] (target.Command == "" || (target.mainRan && target.mainOK)) && target.checksOK && target.resultWritten
+//@   ghostset target.clearIssued := true
+
+// C07 ordering / C01: outputs are stored before the result that references them; C02 early cut-off for output-less targets.
+//@ func (*Executor).OnTargetComplete(e, ctx, target, update) (err)
+//@   requires [only_after_success] (target.Command == "" || (target.mainRan && target.mainOK)) && target.checksOK
+//@   ensures [written_under_current_key] err == nil ==> cacheWrites > old(cacheWrites) && lastWrittenKey == target.ChangeHash
+//@   ensures [no_output_hash_is_change_hash] err == nil && !inSlice(target.Tags, "no-cache") && e.enableCache && len(target.Outputs) == 0 && target.BinOutput.Identifier == "" ==> target.OutputHash == target.ChangeHash
+//@   ensures [outputs_marked_loaded] err == nil ==> target.OutputsLoaded
+//@   ghostset target.resultWritten := target.resultWritten || cacheWrites > old(cacheWrites)
+
+// helpers that build fresh maps/slices for the shell template; no effect on existing objects
+//@ func (*Executor).getBinToolPaths(e, target) (m, err)
+//@   pure
+
+//@ func (*Executor).getDependencyOutputIdentifiers(e, target) (m)
+//@   pure
+
+//@ func getTargetOutputIdentifiers(target) (ids)
+//@   pure
+
+// C15 / load_outputs=minimal: outputs of direct dependencies are made present before a target executes.
+// The frame is by field (type-level): only cache/restore bookkeeping fields of targets change.
+//@ func (*Executor).LoadDependencyOutputs(e, ctx, target, update) (err)
+//@   requires [in_worker] inWorker || soloPhase
+//@   modifies heap("H$S$model.Target$OutputsLoaded"), heap("H$S$model.Target$OutputHash"), heap("H$S$model.Target$CacheTime"), heap("H$S$model.Target$ExecutionTime")
+
+// C02/C13/C14: the cache-hit gate.
+//@ func (*Executor).getTaskFunc$1(update) (r, err)
+//@   requires [in_worker] inWorker
+//@   ensures [hit_requires_result] r == dag.CacheHit && err == nil ==> !lastLoadNil && lastLoadKey == target.ChangeHash
+//@   ensures [hit_requires_not_tainted] r == dag.CacheHit && err == nil ==> !lastIsTainted
+//@   ensures [hit_requires_cacheable] r == dag.CacheHit && err == nil ==> !inSlice(target.Tags, "no-cache") && e.enableCache
+//@   ensures [hit_requires_checks_pass] r == dag.CacheHit && err == nil ==> target.checksOK
+//@   ensures [hit_restores_or_minimal] r == dag.CacheHit && err == nil ==> e.loadOutputsMode == config.LoadOutputsMinimal || target.restored
+//@   ensures [hit_never_executes] r == dag.CacheHit && err == nil ==> target.mainRan == old(target.mainRan)
+//@   ensures [minimal_hit_sets_output_hash] r == dag.CacheHit && err == nil && e.loadOutputsMode == config.LoadOutputsMinimal ==> target.OutputHash == lastLoadOutputHash
+//@   ensures [miss_success_executed] r != dag.CacheHit && err == nil ==> (target.Command == "" || (target.mainRan && target.mainOK)) && target.checksOK && target.resultWritten
+//@   before_call LoadDependencyOutputs#1 [exec_only_if] lastLoadNil || lastIsTainted || inSlice(target.Tags, "no-cache") || !e.enableCache || !target.checksOK || (target.restoreTried && !target.restored)
+//@   before_call executeTarget#1 [exec_only_if] e.loadOutputsMode == config.LoadOutputsMinimal || lastLoadNil || lastIsTainted || inSlice(target.Tags, "no-cache") || !e.enableCache || !target.checksOK || (target.restoreTried && !target.restored)
